@@ -79,6 +79,13 @@ def main():
             evs.append({"e": "WellFormed", "case": idx, "where": where, "s": s, "opts": " ".join(o), "wf": pr["wf"] and rw.exit == 0 and len(rw.out) > 0,
                         "err": pr["err"], "undefined": undefined[:5], "duplicated": dup[:5], "symundefined": symund[:5] if pr["wf"] else [],
                         "ndefs": len(pr["defs"]), "nrefs": len(pr["refs"]), "ret": campaign.retof(rw), "dwexit": rw.exit})
+        # the escaped text must read back as the same text: B against the document abidw wrote for it (Writer!Unescape(Emit(s)) = s)
+        if where != "plain":
+            abi = os.path.join(d, "lib.abi")
+            rw = vf.run([abidw, "--out-file", abi, os.path.join(d, "lib.so")], env=vf.henv(d))
+            rd = vf.run([vf.tool("hooks", "abidiff"), "--no-default-suppression", os.path.join(d, "lib.so"), abi], env=vf.henv(d))
+            evs.append({"e": "XmlEquiv", "case": idx, "where": where, "s": s, "opts": "", "dwexit": rw.exit, "diffexit": rd.exit, "outlen": len(rd.out),
+                        "selfcheck": 0, "ret": campaign.retof(rw, rd), "out": (rd.out + rd.err)[:300]})
         return ("ok", evs)
 
     events = []
@@ -88,7 +95,7 @@ def main():
         else:
             events += r[1]
     c.cov["evaluations"] = len(events)
-    c.cov["distinct_nontrivial"] = len({(e["where"], e["s"]) for e in events if e["s"]}) + len({e["case"] for e in events if e["where"] == "plain" and e["nrefs"] > 4})
+    c.cov["distinct_nontrivial"] = len({(e["where"], e["s"]) for e in events if e["s"]}) + len({e["case"] for e in events if e["where"] == "plain" and e.get("nrefs", 0) > 4})
     c.cov["rule"] = ("all %d non-empty strings TLC enumerates over Sigma (length <= %d) placed in 6 input-controlled positions (function / variable symbol name via objcopy, SONAME, "
                      "DT_NEEDED, source directory, source file name) of TLC-generated programs, plus plain 1-3 TU programs; abidw with and without --annotate; output projected with "
                      "expat: well-formed, referenced type ids defined exactly once, referenced symbol ids listed; non-trivial = distinct (position, string) + plain programs with > 4 type references"
